@@ -16,6 +16,7 @@ to one form here - and only where the rewrite is provably the same program:
   logging      `_log.debug("...%d", len(x))` with `_log = logging.getLogger(...)`: logging never raises into its caller and
                formats lazily; what remains is the evaluation of the arguments and - for %s / %r / unknown formats - the
                `str()` / `repr()` of each argument the record may run
+  classes      a class moved into a private module of its own and imported back into exactly one module is read in that module
   roles        private attributes found by what they are (the view ASN1Reader.__init__ makes with memoryview(), the buffer
                data_to_send() drains, ...) and given the name the rules use for them
 
@@ -236,6 +237,146 @@ def _imports(parsed, log: Dict[str, Dict[str, int]]) -> None:
         if count:
             log.setdefault(modname, {})["import spellings"] = count
         ast.fix_missing_locations(tree)
+
+
+def _relocate_classes(parsed, log) -> None:
+    """A class that was moved into a private module of its own and is imported back, by name, into exactly one other module
+    (`asn1.py`: `from ._asn1types import ASN1Tag`; everyone else still imports it from `.asn1`) is read where it is imported:
+    the rules name a handful of classes by the module the package presents them in, and that module is the one place that
+    did not change for the users of the package.  The definition is moved in memory only when every name it mentions means
+    the same thing there (imports that are missing are added; a name that would be captured stops the move)."""
+    import builtins
+    trees = {m: t for m, _p, _s, t in parsed}
+
+    def top(tree: ast.Module):
+        defs, imps = {}, {}
+        tc: List[ast.stmt] = []
+        for n in tree.body:
+            if isinstance(n, (ast.FunctionDef, ast.AsyncFunctionDef, ast.ClassDef)):
+                defs.setdefault(n.name, []).append(n)
+            elif isinstance(n, (ast.Assign, ast.AnnAssign, ast.AugAssign)):
+                for t_ in (n.targets if isinstance(n, ast.Assign) else [n.target]):
+                    for x in ast.walk(t_):
+                        if isinstance(x, ast.Name):
+                            defs.setdefault(x.id, []).append(n)
+            elif isinstance(n, ast.If) and "TYPE_CHECKING" in ast.unparse(n.test):
+                tc.extend(x for x in n.body if isinstance(x, (ast.Import, ast.ImportFrom)))
+        return defs, tc
+    info = {m: top(t) for m, t in trees.items()}
+    # the modules the package presents itself through: whatever its __init__ imports from stays where it is
+    surface = set()
+    if PKG in trees:
+        for n in ast.walk(trees[PKG]):
+            if isinstance(n, ast.ImportFrom):
+                base = _abs_module(PKG, n.module, n.level)
+                surface.add(base)
+                for al in n.names:
+                    surface.add(f"{base}.{al.name}")
+            elif isinstance(n, ast.Import):
+                for al in n.names:
+                    surface.add(al.name)
+
+    def imports_of(modname: str, tree: ast.Module, tc):
+        out = {}
+        for n in list(tree.body) + list(tc):
+            if isinstance(n, ast.ImportFrom):
+                base = _abs_module(modname, n.module, n.level)
+                for al in n.names:
+                    out[al.asname or al.name] = ("from", base, al.name)
+            elif isinstance(n, ast.Import):
+                for al in n.names:
+                    out[al.asname or al.name.split(".")[0]] = ("import", al.name, al.asname)
+        return out
+    for H, htree in trees.items():
+        moved = 0
+        for node in list(htree.body):
+            if not (isinstance(node, ast.ImportFrom) and node.level >= 1):
+                continue
+            P = _abs_module(H, node.module, node.level)
+            if P not in trees or P == H or not P.split(".")[-1].startswith("_") or P == PKG or P in surface:
+                continue
+            pdefs, ptc = info[P]
+            hdefs, htc = info[H]
+            pimps = imports_of(P, trees[P], ptc)
+            for al in list(node.names):
+                N = al.name
+                if al.asname not in (None, N) or N not in pdefs or len(pdefs[N]) != 1 or not isinstance(pdefs[N][0], ast.ClassDef) or N in hdefs:
+                    continue
+                cdef = pdefs[N][0]
+                importers = {m for m, t in trees.items() if m not in (P, PKG) and any(isinstance(x, ast.ImportFrom) and _abs_module(m, x.module, x.level) == P and
+                                                                                         any(a2.name == N for a2 in x.names) for x in ast.walk(t))}
+                if importers != {H}:
+                    continue
+                local = {x.id for x in ast.walk(cdef) if isinstance(x, ast.Name) and isinstance(x.ctx, (ast.Store, ast.Del))}
+                local |= {x.name for x in ast.walk(cdef) if isinstance(x, (ast.FunctionDef, ast.AsyncFunctionDef, ast.ClassDef))}
+                local |= {a_.arg for f in ast.walk(cdef) if isinstance(f, (ast.FunctionDef, ast.AsyncFunctionDef, ast.Lambda))
+                          for a_ in f.args.posonlyargs + f.args.args + f.args.kwonlyargs + ([f.args.vararg] if f.args.vararg else []) + ([f.args.kwarg] if f.args.kwarg else [])}
+                local |= {x.name for x in ast.walk(cdef) if isinstance(x, ast.ExceptHandler) and x.name}
+                free = {x.id for x in ast.walk(cdef) if isinstance(x, ast.Name) and isinstance(x.ctx, ast.Load)} - local
+                # names inside string annotations
+                for x in ast.walk(cdef):
+                    if isinstance(x, ast.Constant) and isinstance(x.value, str) and x.value.isidentifier() and (x.value in pdefs or x.value in pimps):
+                        free.add(x.value)
+                himps = imports_of(H, htree, htc)
+                add_plain: List[ast.stmt] = []
+                add_tc: List[ast.stmt] = []
+                ok = True
+                for r in sorted(free):
+                    if hasattr(builtins, r) or r == N:
+                        continue
+                    if r in pimps:
+                        org = pimps[r]
+                        if org[0] == "from" and org[1] == H:
+                            if r not in hdefs:          # P took it from H: H must define it
+                                ok = False
+                            continue
+                        if himps.get(r) == org:
+                            continue
+                        if r in himps or r in hdefs:
+                            ok = False                  # the name means something else in H
+                            continue
+                        imp = ast.ImportFrom(module=org[1], names=[ast.alias(name=org[2], asname=r if r != org[2] else None)], level=0) if org[0] == "from" else \
+                            ast.Import(names=[ast.alias(name=org[1], asname=org[2])])
+                        guarded = any(isinstance(y, (ast.Import, ast.ImportFrom)) and any((a3.asname or a3.name.split(".")[0]) == r for a3 in y.names) for y in ptc)
+                        (add_tc if guarded else add_plain).append(imp)
+                    elif r in pdefs:
+                        # another definition of P: H has to see the same object
+                        if himps.get(r) == ("from", P, r):
+                            continue
+                        if r in himps or r in hdefs:
+                            ok = False
+                            continue
+                        add_plain.append(ast.ImportFrom(module=P, names=[ast.alias(name=r, asname=None)], level=0))
+                    else:
+                        ok = False
+                if not ok:
+                    continue
+                # move
+                trees[P].body.remove(cdef)
+                back = ast.ImportFrom(module=H, names=[ast.alias(name=N, asname=None)], level=0)
+                ast.copy_location(back, cdef)
+                trees[P].body.append(back)
+                node.names = [a2 for a2 in node.names if a2 is not al]
+                at = htree.body.index(node) + 1
+                for imp in add_plain:
+                    ast.copy_location(imp, node)
+                    ast.fix_missing_locations(imp)
+                    htree.body.insert(at, imp)
+                    at += 1
+                if add_tc:
+                    guard = ast.If(test=ast.Attribute(value=ast.Name(id="t", ctx=ast.Load()), attr="TYPE_CHECKING", ctx=ast.Load()), body=add_tc, orelse=[])
+                    ast.copy_location(guard, node)
+                    ast.fix_missing_locations(guard)
+                    htree.body.insert(at, guard)
+                    at += 1
+                htree.body.insert(at, cdef)
+                info[P][0].pop(N, None)
+                info[H][0].setdefault(N, []).append(cdef)
+                moved += 1
+                log.setdefault(H, {})[f"class {N} read here (defined in {P.split('.')[-1]})"] = 1
+        htree.body[:] = [b for b in htree.body if not (isinstance(b, ast.ImportFrom) and not b.names)]
+        if moved:
+            ast.fix_missing_locations(htree)
 
 
 def _is_final(anno: ast.expr) -> bool:
@@ -950,6 +1091,7 @@ def _roles(parsed, log) -> None:
 def canonicalise(parsed) -> Dict[str, Dict[str, int]]:
     log: Dict[str, Dict[str, int]] = {}
     _imports(parsed, log)
+    _relocate_classes(parsed, log)
     _structure(parsed, log)
     _prefixes(parsed, log)
     _finals(parsed, log)
